@@ -566,10 +566,10 @@ class FSTStateRemaining:
         """
         if state in self._seen_states:
             counter = 0
-            new_state = state + str(counter)
+            new_state = str(state) + str(counter)
             while new_state in self._seen_states:
                 counter += 1
-                new_state = state + str(counter)
+                new_state = str(state) + str(counter)
             self._state_renaming[(state, idx)] = new_state
             self._seen_states.add(new_state)
         else:
